@@ -24,8 +24,9 @@ SmallSubsets(nv) == {<<a>> : a \in 0..(nv - 1)} \cup {q \in [1..2 -> 0..(nv - 1)
 SegInfos == {<<[id |-> 0, subs |-> <<1, 2>>], [id |-> 3, subs |-> <<>>]>>, <<[id |-> 2, subs |-> <<0>>], [id |-> 1, subs |-> <<>>]>>,
              <<[id |-> 0, subs |-> <<>>]>>, <<[id |-> 1, subs |-> <<>>], [id |-> 0, subs |-> <<>>], [id |-> 2, subs |-> <<3>>]>>}
 Labels(info) == {-1} \cup ToSet(FlatIds(info))
-\* C13: the setter alphabet; each op comes in three value variants
-SetOps == {[op |-> o, v |-> v] : o \in {"verts", "vertsN", "uvs", "normals", "tangents", "bitangents", "colors", "eye", "tris", "reload"}, v \in 0..2}
+\* C13: the setter alphabet; each op comes in three value variants ("all": uvs, normals, tangents, bitangents and colours in one go,
+\* the way a tool fills a shape after giving it new vertices)
+SetOps == {[op |-> o, v |-> v] : o \in {"verts", "vertsN", "uvs", "normals", "tangents", "bitangents", "colors", "eye", "tris", "reload", "all"}, v \in 0..2}
 Cases ==
     CASE Family = "delverts" -> UNION {{[k |-> "delverts", nv |-> m.nv, tris |-> m.tris, I |-> I] : I \in NonEmptySubsets(m.nv)} : m \in Meshes}
                                 \cup UNION {{[k |-> "delverts", nv |-> m.nv, tris |-> m.tris, I |-> I] : I \in SmallSubsets(m.nv)} : m \in BigMeshes}
